@@ -50,11 +50,12 @@ Checks that missed a change at first were strengthened (noted below the table); 
 |---|---|---|---|---|
 """ + "\n".join(rows) + """
 
-Nine rounds were run (20 + 20 + 16 + 20 + 20 + 20 + 20 + 20 + 20 = 176 changes; seeds `Cxx`, `R2-Cxx` ... `R9-Cxx`; from the
+Ten rounds were run (20 + 20 + 16 + 20 + 20 + 20 + 20 + 20 + 20 + 9 = 185 changes; seeds `Cxx`, `R2-Cxx` ... `R10-Cxx`; round 10
+asked for ten properties only, and one delivery (C03) was dropped because it made a pinned test panic; from the
 second round on the sub-agent was told, in one line each, the earlier ideas for the same property and asked for a different
 code site and mechanism; round 3 has 16 seeds because four sub-agents did not deliver a change that could be confirmed). The
 last column is the outcome of the matrix runs (`bin/seedmatrix`: checks against a scratch worktree with the patch, quick
-tier, after all strengthening; `seeded/matrix.json`). **Every one of the 176 changes is reported by the check of the
+tier, after all strengthening; `seeded/matrix.json`). **Every one of the 185 changes is reported by the check of the
 property it breaks**; most are also reported by neighbouring checks. First-time results, before strengthening (own check /
 any check): round 1 — 14 / 20 of 20; round 2 — 8 of 20; round 3 — 4 of 16 (3 by no check, one made the harness itself
 fail); round 4 — 9 of 20 (5 by no check); round 5 — 7 / 14 of 20; round 6 — 9 / 16 of 20 (four of the nine own-check hits
@@ -63,7 +64,8 @@ R7-C14, R7-C15, R7-C16, R7-C18 — each needed a capability the world did not ha
 connections per node, a close with a backlog, traffic during the topology probe, connections between whitelist reloads);
 round 8 — measured only in part, a harness rebuild disturbed the first matrix run (R8-C14 and R8-C04 pointed at two BLIND
 SPOTS of the harness — the stubbed redis client and the mirrored boot path, §3.1 — and R8-C18 at a third: a fresh watcher
-object per reload); round 9 — see `seeded/matrix.json`. Several seeds repeat an earlier idea under another property
+object per reload); round 9 — see `seeded/matrix.json`; round 10 — 2 of 9 by their own check (R10-C05, R10-C10), the other seven needed
+the families listed below. Several seeds repeat an earlier idea under another property
 (R6-C03 / R6-C15 / R6-C19, R7-C20 = R5-C14, R7-C04 = C05, R9-C01 = R8-C02, R9-C04 = R3-C20): they are kept because each is
 judged by a different check. Two sub-agents (rounds 5 and 9) reported, as a side remark, defects of the unchanged tree that
 the checks had not been asked about: the late redirect of a finished fragment (found independently while writing the C16
@@ -127,6 +129,16 @@ unchanged tree):
   production buffers (C02); QUIT behind a request with coalesced replies (C03); several fragments in one write to a slow
   node (C06); many-key streams (C08); ask-migrating (C10); error with slow-log (C11); AUTH lengths with a password (C12);
   slot-less importing master (C13, C14); small size limit end-to-end (C14).
+* round 10 — a whole write batch to a silent node times out (C01, C16: one deadline per request, not per batch); a client
+  gone before the deadline with another client's request behind it (C16; the seeded loop logs on every turn, so the
+  logging stub now bounds what a replay captures and a log line counts towards the livelock guard — before that the
+  replay of the livelock grew to 25 GB); redirect hops that are each inside the request timeout while their sum is not
+  (C13, C16); a split request as the FIRST request on connections that start with AUTH / READONLY, all replies in one
+  read (C07); a fragment answered with an error, judged by C07 as well as C11; a fragment's reply followed by further
+  replies in the same backend read with nothing else making that connection readable again (C09); a request cut inside
+  its array-header / first bulk-header line (C19); an incomplete request of more than 32 MiB whose client hangs up —
+  buffers of the top size class of the pools (C12, C19); a node lost for good — connection gone and every new dial
+  refused — with later requests routed to it (C15).
 """ + own + "\n" + e3
 open(root+'/DESIGN.md','w').write(head+body+sec8+appA+app)
 print("DESIGN.md written,", len(open(root+'/DESIGN.md').read().splitlines()), "lines")
